@@ -1,9 +1,163 @@
-// Package c09: check for property C09 (stub until implemented).
+// Package c09: the party update API is safe to call from many goroutines (SCHED).
+// The harness binary (cmd/sched09) is built with an overlay in which /repo/tss/party.go is replaced by
+// a mechanically instrumented copy of the CURRENT file; all interleavings of a few concurrent calls on
+// one real party are explored up to a preemption bound; a separate free-running -race build of the
+// same scenario bodies gives the race detector's second opinion.
 package c09
 
-import "verif/internal/core"
+import (
+	"bytes"
+	"encoding/json"
+	"fmt"
+	"os"
+	"os/exec"
+	"path/filepath"
+	"regexp"
+	"strings"
 
-// Implemented reports whether this check is built.
-const Implemented = false
+	"verif/internal/core"
+	"verif/internal/ovl"
+)
 
-func Run(r *core.Run) { r.Cap("not implemented") }
+const Implemented = true
+
+type violation struct {
+	Key      string   `json:"key"`
+	What     string   `json:"what"`
+	Schedule []int    `json:"schedule"`
+	Trace    []string `json:"trace"`
+}
+
+type result struct {
+	Scenario     string      `json:"scenario"`
+	Bound        int         `json:"bound"`
+	Schedules    int         `json:"schedules"`
+	Steps        int         `json:"steps"`
+	MaxPoints    int         `json:"max_points"`
+	Capped       bool        `json:"capped"`
+	Outcomes     int         `json:"distinct_outcomes"`
+	SeqOutcomes  int         `json:"sequential_outcomes"`
+	Violations   []violation `json:"violations"`
+	SampleTrace  []string    `json:"sample_trace"`
+	ReplayStable bool        `json:"replay_stable"`
+}
+
+func Run(r *core.Run) {
+	dir := filepath.Join(core.WorkDir(), fmt.Sprintf("c09-%d", os.Getpid()))
+	_ = os.MkdirAll(dir, 0o755)
+	defer os.RemoveAll(dir)
+	o, err := ovl.Base()
+	if err != nil {
+		r.Cap("cannot read VERIF_OVERLAY: " + err.Error())
+		return
+	}
+	st, err := o.Instrument(dir, "/repo/tss/party.go", []string{"rnd"}, []string{"StoreMessage"})
+	if err != nil {
+		fmt.Fprintln(os.Stderr, "INFRASTRUCTURE: cannot instrument tss/party.go:", err)
+		os.Exit(2)
+	}
+	if !st.SyncImport || st.AccessHooks < 5 {
+		fmt.Fprintf(os.Stderr, "INFRASTRUCTURE: instrumentation of tss/party.go found too little (%+v)\n", st)
+		os.Exit(2)
+	}
+	r.Set("instrumentation", fmt.Sprintf("%+v", st))
+	ovPath, _ := o.Write(dir)
+	bin := filepath.Join(dir, "sched09")
+	if err := ovl.Build(ovPath, "./cmd/sched09", bin, false); err != nil {
+		fmt.Fprintln(os.Stderr, "INFRASTRUCTURE:", err)
+		os.Exit(2)
+	}
+	bound := "2"
+	if r.Tier == "thorough" {
+		bound = "4"
+	}
+	cmd := exec.Command(bin, "explore", r.Tier, fmt.Sprint(r.Seed), bound)
+	var stderr bytes.Buffer
+	cmd.Stderr = &stderr
+	out, err := cmd.Output()
+	if err != nil {
+		fmt.Fprintln(os.Stderr, "INFRASTRUCTURE: harness failed:", err, tail(stderr.String()))
+		os.Exit(2)
+	}
+	var results []result
+	if err := json.Unmarshal(out, &results); err != nil {
+		fmt.Fprintln(os.Stderr, "INFRASTRUCTURE: harness output unreadable:", err)
+		os.Exit(2)
+	}
+	var schedules, steps int
+	for _, res := range results {
+		schedules += res.Schedules
+		steps += res.Steps
+		proto := strings.SplitN(res.Scenario, "/", 2)[0]
+		for _, v := range res.Violations {
+			if strings.HasPrefix(v.Key, "infrastructure/") {
+				r.Cap("scheduler: " + v.Key + " in " + res.Scenario)
+				continue
+			}
+			r.Violate(proto+"/"+v.Key, v.What+" [scenario "+res.Scenario+"]", map[string]interface{}{"scenario": res.Scenario, "schedule": v.Schedule, "trace": v.Trace})
+		}
+		if !res.ReplayStable {
+			r.Cap("replaying the same schedule twice gave different observations in " + res.Scenario)
+		}
+		if res.Capped {
+			r.Cap("schedule cap hit in " + res.Scenario)
+		}
+		r.Distinct("outcomes", fmt.Sprintf("%s#%d", res.Scenario, res.Outcomes))
+		r.Set("scn:"+res.Scenario, map[string]interface{}{"schedules": res.Schedules, "scheduling_points_total": res.Steps, "max_points_per_schedule": res.MaxPoints,
+			"distinct_final_observables": res.Outcomes, "sequential_observables": res.SeqOutcomes, "preemption_bound": res.Bound})
+		if len(res.SampleTrace) > 0 && strings.Contains(res.Scenario, "WaitingFor") {
+			r.Sample(4, map[string]interface{}{"scenario": res.Scenario, "longest_schedule": res.SampleTrace})
+		}
+	}
+	r.Set("states", steps)
+	r.Set("transitions", steps)
+	r.Set("schedules", schedules)
+	r.Set("traces_validated_against_impl", schedules)
+	r.Set("preemption_bound_completed", bound)
+	r.Set("scenarios", len(results))
+
+	// free-running race-detector pass (second opinion; a report is a real race)
+	rbin := filepath.Join(dir, "sched09race")
+	if err := ovl.Build(ovPath, "./cmd/sched09", rbin, true); err != nil {
+		r.Cap("race build unavailable: " + firstLine(err.Error()))
+	} else {
+		rc := exec.Command(rbin, "free", r.Tier, fmt.Sprint(r.Seed), "0")
+		rc.Env = append(os.Environ(), "GOMAXPROCS=16", "GORACE=halt_on_error=0")
+		bz, _ := rc.CombinedOutput()
+		reports := strings.Split(string(bz), "WARNING: DATA RACE")
+		r.Set("race_reports", len(reports)-1)
+		fr := regexp.MustCompile(`tss-lib/v2/([a-z/]+)\.\(?\*?([A-Za-z0-9]+)\)?\.([A-Za-z0-9]+)\(\)`)
+		for _, rep := range reports[1:] {
+			site := "unknown"
+			if strings.Contains(rep, ").WrapError()") {
+				site = "WrapError"
+			} else if m := fr.FindStringSubmatch(rep); m != nil {
+				site = m[1] + "." + m[2] + "." + m[3]
+			}
+			lines := strings.Split(rep, "\n")
+			if len(lines) > 24 {
+				lines = lines[:24]
+			}
+			r.Violate("race/"+site, "the Go race detector reports a data race (free-running pass)", strings.Join(lines, "\n"))
+		}
+		if !strings.Contains(string(bz), "free-run-done") {
+			r.Cap("free-running pass did not finish: " + tail(string(bz)))
+		}
+	}
+	r.Assume("scheduling points: every Lock of the party mutex; unsynchronised accesses are caught by the lock-set monitor (access hooks on BaseParty.rnd and on the engine's calls into party state) and by the separate free-running -race pass")
+	r.Assume("peer messages come from a recorded deterministic transcript; ECDSA signing uses only round-1 messages (later ones depend on the party's own non-reproducible round-2 output)")
+}
+
+func tail(s string) string {
+	if len(s) > 600 {
+		return s[len(s)-600:]
+	}
+	return s
+}
+
+func firstLine(s string) string {
+	if i := strings.Index(s, "\n"); i > 0 {
+		return s[:i]
+	}
+	return s
+}
